@@ -30,9 +30,10 @@ type Op struct {
 }
 
 type LRule struct {
-	Name string `json:"name"`
-	Sal  int64  `json:"sal"`
-	Ops  []Op   `json:"ops"`
+	Name  string `json:"name"`
+	Sal   int64  `json:"sal"`
+	Ops   []Op   `json:"ops"`
+	NoAsg bool   `json:"noasg"` // body without any assignment statement: locals are bound by forRange only (ops FR R H RI)
 }
 
 type Child struct {
@@ -63,6 +64,27 @@ func localsText(rs []LRule) string {
 	var sb strings.Builder
 	for _, r := range rs {
 		fmt.Fprintf(&sb, "rule \"%s\" \"d\" salience %d\nbegin\n", r.Name, r.Sal)
+		if r.NoAsg {
+			// no assignment statement anywhere: the execution id is looked up by (rule, request)
+			fmt.Fprintf(&sb, "  enterq(\"%s\", q)\n", r.Name)
+			for i, op := range r.Ops {
+				n := i + 1
+				switch op.K {
+				case "FR":
+					fmt.Fprintf(&sb, "  forRange %s := fr_%s {\n    opq(\"%s\", q, %d, %s)\n  }\n", op.Name, r.Name, r.Name, n, op.Name)
+				case "R":
+					fmt.Fprintf(&sb, "  opq(\"%s\", q, %d, %s)\n", r.Name, n, op.Name)
+				case "H":
+					fmt.Fprintf(&sb, "  holdq(\"%s\", q, %d)\n", r.Name, n)
+				case "RI":
+					fmt.Fprintf(&sb, "  opq(\"%s\", q, %d, inj.%s)\n", r.Name, n, op.Name)
+				default:
+					panic("operation " + op.K + " needs an assignment")
+				}
+			}
+			fmt.Fprintf(&sb, "  finq(\"%s\", q)\nend\n", r.Name)
+			continue
+		}
 		fmt.Fprintf(&sb, "  e = enter(\"%s\", q)\n", r.Name)
 		for i, op := range r.Ops {
 			n := i + 1
@@ -93,6 +115,26 @@ type Inj struct {
 
 var theObs *obs.Obs
 var execCounter int64
+var qmu sync.Mutex
+var qexec = map[string]int64{} // "rule/request" -> execution id (assignment-free rules)
+
+func qkey(r string, q int64) string { return fmt.Sprintf("%s/%d", r, q) }
+func qget(r string, q int64) int64 {
+	qmu.Lock()
+	defer qmu.Unlock()
+	return qexec[qkey(r, q)]
+}
+
+// the per-request map every assignment-free rule ranges over: one key, distinct per (request, rule)
+func frMaps(rs []LRule, q int64) map[string]interface{} {
+	m := map[string]interface{}{}
+	for i, r := range rs {
+		if r.NoAsg {
+			m["fr_"+r.Name] = map[int64]int64{q*1000 + int64(i) + 1: 1}
+		}
+	}
+	return m
+}
 
 func localsAPI() map[string]interface{} {
 	return map[string]interface{}{
@@ -120,6 +162,22 @@ func localsAPI() map[string]interface{} {
 		},
 		"fin": func(e int64) {
 			theObs.EmitEnd(obs.Event{"ev": "eend", "e": e})
+		},
+		"enterq": func(r string, q int64) {
+			e := atomic.AddInt64(&execCounter, 1)
+			qmu.Lock()
+			qexec[qkey(r, q)] = e
+			qmu.Unlock()
+			theObs.EmitStart(obs.Event{"ev": "estart", "e": e, "r": r, "q": q}, r)
+		},
+		"opq": func(r string, q int64, i int64, v int64) {
+			theObs.Emit(obs.Event{"ev": "eop", "e": qget(r, q), "i": i, "val": v})
+		},
+		"holdq": func(r string, q int64, i int64) {
+			theObs.Hold(obs.Event{"ev": "eop", "e": qget(r, q), "i": i, "val": 0}, "hold")
+		},
+		"finq": func(r string, q int64) {
+			theObs.EmitEnd(obs.Event{"ev": "eend", "e": qget(r, q)})
 		},
 	}
 }
@@ -187,9 +245,16 @@ func runLocals(s *Session, quiet time.Duration, seed int64, tmo time.Duration) (
 			}()
 			st := &engine.Stag{}
 			if pool != nil {
-				err, _ = dispatch.PoolCall(pool, c, st, map[string]interface{}{"q": q, "inj": inj, "stag": st})
+				data := map[string]interface{}{"q": q, "inj": inj, "stag": st}
+				for k, v := range frMaps(s.Rules, q) {
+					data[k] = v
+				}
+				err, _ = dispatch.PoolCall(pool, c, st, data)
 			} else {
 				rb.Dc.Add("q", q)
+				for k, v := range frMaps(s.Rules, q) {
+					rb.Dc.Add(k, v)
+				}
 				err = dispatch.EngineCall(g, rb, c, st)
 			}
 		}()
